@@ -39,7 +39,8 @@ func NewWorld(seed uint64, strict bool) *World {
 	b := simbmc.New(seed)
 	n := &memnet.Net{Peer: b.Peer, Strict: strict, Poison: 0xA5}
 	t := bmc.NewV2SessionlessTransportForVerif(n, time.Hour, &backoff.ZeroBackOff{})
-	w := &World{BMC: b, Net: n, T: t}
+	// which contexts get the additional deadline (see Ctx) varies with the seed
+	w := &World{BMC: b, Net: n, T: t, ctxCalls: int(seed>>7) & 1}
 	n.OnSend = func(k int, d []byte) {
 		if w.OnSend != nil {
 			w.OnSend(k, d)
